@@ -1221,7 +1221,9 @@ func Generate(t *rapid.T, cfg *Config) *Case {
 	if nf == 0 {
 		nf = 40
 	}
-	nf = rapid.IntRange(1, nf).Draw(t, "nfuncs")
+	// (the lower bound keeps every compiler / node invocation well filled; failing
+	// cases are minimised by Minimal, not by shrinking the module)
+	nf = rapid.IntRange((nf+1)/2, nf).Draw(t, "nfuncs")
 	var funcs []*Func
 	for len(funcs) < nf {
 		f := g.one()
@@ -1254,7 +1256,7 @@ func Script(t *rapid.T, cfg *Config, seed uint64, funcs []*Func) *Case {
 	}
 	ncalls := 0
 	if len(funcs) > 0 {
-		ncalls = rapid.IntRange(1, per*len(funcs)).Draw(t, "ncalls")
+		ncalls = rapid.IntRange((per*len(funcs)+1)/2, per*len(funcs)).Draw(t, "ncalls")
 	}
 	for k := 0; k < ncalls; k++ {
 		fi := rapid.IntRange(0, len(funcs)-1).Draw(t, "callf")
